@@ -211,7 +211,7 @@ func (r *Run) Fail(cell string, witness map[string]any) {
 	os.WriteFile(path, b, 0o644)
 	r.viol = append(r.viol, path)
 	r.violCell = append(r.violCell, cell)
-	if len(r.viol) <= 25 {
+	if len(r.viol) <= 25 && os.Getenv("VERIF_QUIET") == "" {
 		fmt.Printf("VIOLATION property=%s replay=%s\n", r.Prop, path)
 		fmt.Printf("  cell=%s\n", cell)
 		if d, ok := witness["diff"]; ok {
